@@ -56,6 +56,14 @@ impl Pool {
     MutablePoolBuffer(PoolBufferInner { data: Some(buffer), pool: Some(self.0.clone()), permit: Some(permit) })
   }
 
+  /// Get a mutable buffer from the pool if one is available right now, without waiting.
+  pub fn try_acquire_buffer(&self) -> Option<MutablePoolBuffer> {
+    let permit = self.0.sem.clone().try_acquire_owned().ok()?;
+    let buffer = self.0.available.pop().unwrap();
+
+    Some(MutablePoolBuffer(PoolBufferInner { data: Some(buffer), pool: Some(self.0.clone()), permit: Some(permit) }))
+  }
+
   /// Release multiple buffers back to the pool.
   pub fn release_buffers(&self, buffers: &mut Vec<PoolBuffer>) {
     let mut n = 0;
